@@ -66,6 +66,14 @@ def ops_for(m, victim_side, peer_side, own_pake_hex, tier, sd):
             for q in ("version", "0", "1"):
                 if q != m["phase"]:
                     ops.append(("side+phase", s, q, "also"))
+    # labels that differ from an honest one only by non-ASCII characters (a lossy encoding would collapse them)
+    for s in (victim_side + "\u00e9", peer_side + "\u00e9", "\u00e9" + peer_side):
+        ops.append(("side", s, "instead"))
+        ops.append(("side", s, "also"))
+    if m["phase"].isdigit():
+        for q in (m["phase"] + "\u0661", "\u0660" + m["phase"], m["phase"] + "\u00e9"):
+            ops.append(("phase", q, "also"))
+            ops.append(("phase", q, "instead"))
     for s in (peer_side, THIRD_SIDE):
         for q in ("version", "0", "1", "5", "dilate-0"):
             ops.append(("inject", s, q, "random"))
@@ -395,15 +403,18 @@ def phase_key_injective(chk):
     """derive_phase_key over a side x phase alphabet incl. concatenation-ambiguity pairs"""
     from wormhole._key import derive_phase_key
     key = b"k" * 32
-    sides = ["a", "ab", "abc", "", "b", "bc", "c", "deadbeef01", "deadbeef0", "1"]
-    phases = ["", "0", "1", "10", "01", "pake", "version", "c", "bc", "abc", "dilate-0", "dilate-1", "1deadbeef0"]
+    sides = ["a", "ab", "abc", "", "b", "bc", "c", "deadbeef01", "deadbeef0", "1", "a\u00e9", "\u00e9a"]
+    phases = ["", "0", "1", "10", "01", "pake", "version", "c", "bc", "abc", "dilate-0", "dilate-1", "1deadbeef0", "0\u0661", "1\u00e9"]
     seen = {}
     viol = []
     n = 0
     for s in sides:
         for p in phases:
             n += 1
-            k = derive_phase_key(key, s, p)
+            try:
+                k = derive_phase_key(key, s, p)
+            except UnicodeEncodeError:
+                continue        # labels outside ASCII are refused outright: fine
             if k in seen:
                 viol.append(dict(oracle="phase-key-injective", sig="collision",
                                  msg="derive_phase_key collides for %r and %r" % (seen[k], (s, p)), case=[seen[k], [s, p]]))
